@@ -72,6 +72,8 @@ def run(c):
                 if len(es) >= 3: add(base["inp"] + es[len(es) // 2] + es[0])
         # every pair of different elements in definition order (canonical), each with contents of its own, and the full set
         for v in canonical_pairs(m, base["inp"], singles, rng=rng, per_pair=3 if thorough else 1): add(v)
+        # every small value (thorough: every value) of each one-octet mandatory element, with each optional element behind it
+        for v in mand_value_inputs(m, base["inp"], singles, range(256) if thorough else list(range(16)) + [0x1F, 0x55, 0x80, 0xF1, 0xFF]): add(v)
         # contents that look structured (code + inner big-endian length / count smaller than the content) for every element
         for iei, es in byiei.items():
             for v in structured_elements(m, max(es, key=len)): add(base["inp"] + v)
